@@ -135,7 +135,7 @@ CFG = {
         "C08_helmert_threshold", "normalAt_unit", "geodeticToGeocentric_eq", "C08_geocentric_affine_height", "C08_shift_affine",
         "C08_shift_translation", "C08_tangent_part_sq", "C08_height_loss_exact",
         # phase 4 (ProofsCm): the Albers 1 cm clause in the property's words, TM/UTM on the central meridian, and the two factors of heightLossBound
-        "C08_aea_reproject_1cm", "C08_tmerc_central_meridian_reproject", "C08_tilt_le", "ellipsoid_support", "dist_expand", "C08_height_le_distance"]] + [
+        "C08_aea_reproject_1cm", "C08_tmerc_central_meridian_reproject", "C08_tilt_le", "ellipsoid_support", "dist_expand", "C08_height_le_distance", "C08_height_loss_bound"]] + [
         # tie T1: model = definitions regenerated from the current Go source (rfl)
         T + "Ties." + n for n in ["tie_initMerc", "tie_fwdMerc", "tie_invMerc", "tie_initLcc", "tie_fwdLcc", "tie_invLcc",
                                   "tie_initAea", "tie_fwdAea", "tie_invAea", "tie_aeaPhi1zStep", "tie_initEqdc", "tie_fwdEqdc",
